@@ -187,7 +187,9 @@ def rule_e(R, ctx):
     for name, setter, bound in (("before_state", "set_min", "clock_start"), ("after_state", "set_max", "clock_end")):
         fn = Y.fn(TXN + "::" + name)
         found = False
-        why = "no closure found"
+        others = sorted({F.strip_generics(x.name).rsplit("::", 1)[-1] for c in Y.with_closures(fn) for x in c.calls()
+                         if re.search(r"StateVector::(set_min|set_max|inc_by|merge)$", F.strip_generics(x.name))})
+        why = "%s does not fold the insert set into the store's state vector with %s(%s): it calls %s" % (name, setter, bound, others or "no updater")
         for c in Y.with_closures(fn):
             if c.kind != "closure":
                 continue
